@@ -100,3 +100,48 @@ Theorem C03_after_any_history : forall tol x ops n m init t o,
   cev (fst (elim o tol t)) x = cev t x.
 Proof. exact history_then_elim. Qed.
 Print Assumptions C03_after_any_history.
+
+(* ---- histories, at the level of the terminal reached.  sem_hist: the mathematical meaning of the operations applied
+   to the affine function x is led to (composition grafts the argument, the operators combine coefficient-wise,
+   elimination and reduce are the identity).  Every history of library operations -- with or without pruning, with
+   any oracles that are sound for x -- leads x to exactly that function; hence pruning and oracle answers are
+   immaterial for the represented function ("or would be without pruning"), also for the coefficient-wise
+   operators whose result depends on the terminal function itself, not only on its value at x ---- *)
+From AT Require Import TermLevel TermHistory.
+Theorem C03_history_terminal : forall tol x ops n m init t,
+  cwft n m init -> compat_hist (n, m) ops = true ->
+  (forall ox, In ox ops -> osound (fst ox) x /\ mir_sound (fst ox) tol) ->
+  hinv x tol init -> run tol init ops = HOk t ->
+  cterm t x = sem_hist ops x (cterm init x).
+Proof. exact history_term. Qed.
+Theorem C03_history_value : forall tol x ops n m init t,
+  cwft n m init -> compat_hist (n, m) ops = true ->
+  (forall ox, In ox ops -> osound (fst ox) x /\ mir_sound (fst ox) tol) ->
+  hinv x tol init -> run tol init ops = HOk t ->
+  cev t x = option_map (fun f => apply f x) (sem_hist ops x (cterm init x)).
+Proof. exact history_value. Qed.
+Theorem C03_pruning_immaterial : forall tol x ops1 ops2 n m init t1 t2,
+  map (fun ox => forget (snd ox)) ops1 = map (fun ox => forget (snd ox)) ops2 ->
+  cwft n m init -> compat_hist (n, m) ops1 = true -> compat_hist (n, m) ops2 = true ->
+  (forall ox, In ox ops1 -> osound (fst ox) x /\ mir_sound (fst ox) tol) ->
+  (forall ox, In ox ops2 -> osound (fst ox) x /\ mir_sound (fst ox) tol) ->
+  hinv x tol init -> run tol init ops1 = HOk t1 -> run tol init ops2 = HOk t2 ->
+  cterm t1 x = cterm t2 x /\ cev t1 x = cev t2 x.
+Proof. exact history_pruning_immaterial. Qed.
+(* one step, terminal level: elimination and the pruning compositions/operators *)
+Theorem C03_elim_terminal : forall o tol t x, osound o x -> marks_kids x [] t -> cterm (fst (elim o tol t)) x = cterm t x.
+Proof. exact elim_cterm. Qed.
+Theorem C03_prune_terminal : forall o tol s L x, osound o x -> bin2 L ->
+  forall t q k, cbin t -> terms_ok s t -> marks_ok x q t -> in_rows q x ->
+  cterm (fst (cprune o tol s L t q k)) x = term (lift s (erase t) L) x.
+Proof. exact cprune_cterm. Qed.
+Example C03_history_nonvacuous :
+  exists t1 t2, run 0 ex_t th_ops1 = HOk t1 /\ run 0 ex_t th_ops2 = HOk t2 /\ (csize t1 < csize t2)%nat /\
+  forall x, cterm t1 x = cterm t2 x /\ cev t1 x = cev t2 x.
+Proof. exact th_example. Qed.
+Print Assumptions C03_history_terminal.
+Print Assumptions C03_history_value.
+Print Assumptions C03_pruning_immaterial.
+Print Assumptions C03_elim_terminal.
+Print Assumptions C03_prune_terminal.
+Print Assumptions C03_history_nonvacuous.
